@@ -10,7 +10,7 @@ from .. import findings as F
 from .numbering import finish
 
 TOKEN_RE = re.compile(r'/\*\*.*?\*/|"[^"]*"|#\[\w+\]|[A-Za-z_][A-Za-z0-9_]*|-?0x[0-9a-fA-F]+|-?\d+(?:\.\d+)?|[{}()\[\];:,=]', re.S)
-TRIVIA = [" ", "\t", "\n", "// c\n", "/* c */", "/* a\n b */", "/*é中*/", "//\n"]
+TRIVIA = [" ", "\t", "\n", "// c\n", "/* c */", "/* a\n b */", "/*é中*/", "//\n", "/** c */", "/**/", "/***/", "/// c\n"]
 
 
 def tokenize(text):
@@ -103,7 +103,9 @@ def run(ctx, prop):
                 oracle_fail.append({"case": {"idl": text[:400]}, "failures": [{"error": "baseline program rejected"}]})
                 continue
             # ---- (a) trivia at every token gap (exhaustive per program)
-            kinds = TRIVIA if ctx.tier == "thorough" else [" ", "\n", "// c\n", "/* c */", "/*é*/"]
+            # `/** c */` on one line and `/**/` are ORDINARY comments (documentation needs a line
+            # break after `/**`) although they begin like documentation
+            kinds = TRIVIA if ctx.tier == "thorough" else [" ", "\n", "// c\n", "/* c */", "/*é*/", "/** c */", "/**/"]
             for gap in range(len(toks) + 1):
                 for tr in kinds:
                     open(mainp, "w").write(with_trivia(toks, tail, gap, tr))
@@ -221,7 +223,8 @@ def run(ctx, prop):
                 break_after = True
             open(mainp, "w").write(text)
             # ---- (d) marking only prepends a comment block
-            for marking in ["Confidential\nline two\n", "single", "a\r\nb\r\n", "tr*/icky\n"]:
+            for marking in ["Confidential\nline two\n", "single", "a\r\nb\r\n", "tr*/icky\n",
+                            "// Copyright (c) Example\nAll rights reserved.\nint x;\n", "/* boxed */\nplain line\n"]:
                 mk = os.path.join(tmp, "mk.txt")
                 open(mk, "w", newline="").write(marking)
                 for b, style in (("c", "c"), ("cpp-skel", "c"), ("rust", "rust"), ("java", "java")):
